@@ -72,9 +72,9 @@ func (x *seqInst) Observe() Ev {
 	vals := ints(l.Values())
 	n := l.Size()
 	get := [][]any{}
-	for i := -1; i <= n; i++ {
+	for _, i := range obsIndices(n) {
 		v, ok := l.Get(i)
-		get = append(get, []any{v, ok})
+		get = append(get, []any{i, v, ok})
 	}
 	idx := [][]any{}
 	for _, v := range x.probe {
@@ -82,6 +82,22 @@ func (x *seqInst) Observe() Ev {
 	}
 	return Ev{"vals": vals, "size": n, "empty": l.Empty(), "name": firstLine(l.String()), "get": get,
 		"idx": idx, "cnone": l.Contains()}
+}
+
+// every index -1..n of a short list; of a long one the two ends, the middle and a spread of 24 more
+func obsIndices(n int) []int {
+	var is []int
+	if n <= 48 {
+		for i := -1; i <= n; i++ {
+			is = append(is, i)
+		}
+		return is
+	}
+	is = append(is, -1, 0, 1, 2, n/2-1, n/2, n/2+1, n-3, n-2, n-1, n)
+	for t := 1; t <= 24; t++ {
+		is = append(is, (t*n)/25+t%3)
+	}
+	return is
 }
 
 func (x *seqInst) Do(c Call) []any {
